@@ -72,11 +72,13 @@ def replay(ctx, path):
 META = {
     "category": "proof",
     "technique": "Coq state-machine model (with the generated Brent root finder inside) + exact trace correspondence; theorems on the sweep schedule and the root finder (C19); property oracle on scripted norm streams",
-    "text": ("Proved: every sweep of the noisy solver is exactly 2N-3 progress() calls with the symmetric kernel schedule "
-             "for the current (possibly backward) time increment and ends in sweep_complete (all N>=3); the root finder used "
-             "for the jump time keeps its bracket, queries only inside it and never divides by zero (C19 theorems, same "
-             "generated term). The composition 'time steps complete once, in order; jumps inside the step' is checked on the "
-             "real code for scripted adversarial norm streams and by the exact trace correspondence; the invariant proof of "
-             "that composition is in progress (see DESIGN.md). Termination for all streams is not provable."),
+    "text": ("Proved for every N>=3, every increasing target-time list and EVERY norm/uniform/matrix-change oracle stream, by "
+             "induction over sweeps: the run either stops with one of three explicit errors (oracle exhausted, norm gap exactly 0 "
+             "at the root-finder constructor, renormalised norm != 1) or keeps the invariant: current time inside the step in "
+             "progress; a running root search has a valid Brent bracket inside the step and its pending abscissa as target "
+             "(uses the C19 theorems on the same generated term); fill_results exactly once per step, in order, at the step's "
+             "end time; every quantum jump at a time inside the step in progress. Each sweep is exactly 2N-3 progress() calls "
+             "with the symmetric kernel schedule. Termination for all streams is false (an adversarial norm stream can request "
+             "jumps forever) and is only bounded on the real code by the falsifier."),
     "note": "Trusted: Coq kernel+VM, hand-written machine model validated by trace correspondence, generated Brent model (C19).",
 }
